@@ -149,6 +149,19 @@ def gen(rng, tier, focus):
             for a in argsets:
                 lines.append(enc_args(a))
             stmts.append((qid, ds, opts, mode, txt, argsets, m))
+        # placeholder numbers beyond int32 (a parse error, never another argument), and placeholders
+        # below 70 / 200 nested operators (counted and bound like any other)
+        deep = lambda d: b"a = $1 & " + b"^ " * d + b"text = $2"
+        deepp = lambda d: b"(" * d + b"text = $2" + b" | a = $1)" * d
+        for pn, (mode, txt, m, args) in enumerate([("direct", b"a = $4294967297", 1, [("S", b"1")]), ("prepared", b"a = $4294967298 | a = $1", 2, [("S", b"1"), ("S", b"2")]),
+                                                   ("direct", b"a = $2147483649", 1, [("S", b"1")]), ("direct", b"a = $2147483648 | a = $1", 1, [("S", b"1")]),
+                                                   ("direct", deep(70), 2, [("S", b"3"), ("S", b"x")]), ("prepared", deep(70), 2, [("S", b"3"), ("S", b"x")]),
+                                                   ("prepared", deep(201), 2, [("S", b"3"), ("S", b"x")]), ("direct", deepp(70), 2, [("S", b"3"), ("S", b"x")]),
+                                                   ("direct", deep(70), 2, [("S", b"3")]), ("tx", deepp(130), 2, [("S", b"1"), ("S", b"t")])]):
+            qid = "%s.b%d" % (h, pn)
+            lines.append("SQLQ %s %s %s %s 1" % (qid, h, mode, core.enc_str(txt)))
+            lines.append(enc_args(args))
+            stmts.append((qid, ds, opts, mode, txt, [args], m))
         # placeholders with no argument at all / too few, on every path
         for pn, (mode, txt, m, args) in enumerate([("direct", b"text = $1", 1, []), ("prepared", b"text = $1", 1, []), ("tx", b"text = $1 | a = $2", 2, []),
                                                    ("direct", b"text = $1 | a = $2", 2, [("S", b"x")]), ("direct", b"text = $2", 2, [("S", b"x")])]):
